@@ -61,6 +61,7 @@ func checkC16(c *Ctx) {
 	// messages only if the search that drops a deleted message looks at every slot of the ring
 	// (decided by C15's ring-walk rule)
 	c.c16NoAliasedQueue()
+	c.c16GuardedSliceStaysInside()
 	nW := c.borrow(checkC15, "C15/WIRING", "C16/RELAY/wired", "the hub is registered on the AfterMessageStored and AfterMessageDeleted brokers with callbacks that reach Dispatch and Delete")
 	r.Floor("C16/RELAY/wired", "borrowed obligations", nW, 2)
 	nH := c.borrow(checkC15, "C15/HISTORY/full-cycle", "C16/HISTORY/full-cycle", "every walk over the history ring that looks for a message inspects all N slots")
@@ -545,4 +546,76 @@ func (c *Ctx) c16DecidedUnderLock(pm *pairModel) {
 		}
 	}
 	r.Floor(rule, "delete sites on the memory store's message maps", n, 1)
+}
+
+// c16GuardedSliceStaysInside: the listener lists of the event brokers are edited in place under
+// the broker's lock (a removal shifts the entries down). A function that hands the list itself
+// out of its critical section — `RLock; defer RUnlock; return eb.listenerFuncs` — lets the caller
+// walk the backing array while a removal shifts it: one registered listener is skipped and
+// another called twice, so an event is delivered zero or two times.
+func (c *Ctx) c16GuardedSliceStaysInside() {
+	r, p := c.R, c.P
+	rule := "C16/BROKER/list-stays-under-lock"
+	r.Rule(rule, "in pkg/extension no function returns (directly, or re-sliced) the value of a slice field of a struct that carries a sync mutex: what leaves the critical section is a copy")
+	hasMutex := func(t types.Type) bool {
+		if pt, ok := t.Underlying().(*types.Pointer); ok {
+			t = pt.Elem()
+		}
+		st, ok := t.Underlying().(*types.Struct)
+		if !ok {
+			return false
+		}
+		for i := 0; i < st.NumFields(); i++ {
+			ft := st.Field(i).Type()
+			if pt, ok := ft.(*types.Pointer); ok {
+				ft = pt.Elem()
+			}
+			if n, ok := ft.(*types.Named); ok && n.Obj().Pkg() != nil && n.Obj().Pkg().Path() == "sync" && (n.Obj().Name() == "Mutex" || n.Obj().Name() == "RWMutex") {
+				return true
+			}
+		}
+		return false
+	}
+	n := 0
+	seenFn := map[*ssa.Function]bool{}
+	for _, fn := range p.Funcs {
+		if eng.FuncPkgPath(fn) != eng.Mod+"/pkg/extension" || seenFn[fn] || p.IsTestSupport(fn) || len(fn.Blocks) == 0 {
+			continue
+		}
+		seenFn[fn] = true
+		fn := fn
+		eng.EachInstr(fn, func(in ssa.Instruction) {
+			rt, ok := in.(*ssa.Return)
+			if !ok || in.Parent() != fn {
+				return
+			}
+			for _, rv := range eng.ReturnResults(rt) {
+				if _, isSl := rv.Type().Underlying().(*types.Slice); !isSl {
+					continue
+				}
+				n++
+				v := eng.StripConv(rv)
+				for d := 0; d < 3; d++ {
+					if sl, isS := v.(*ssa.Slice); isS {
+						v = eng.StripConv(sl.X)
+						continue
+					}
+					break
+				}
+				bad := false
+				if u, isU := v.(*ssa.UnOp); isU && u.Op == token.MUL {
+					if fa, isFA := u.X.(*ssa.FieldAddr); isFA && hasMutex(fa.X.Type()) {
+						bad = true
+					}
+				}
+				cons := "returns-slice@" + shortFn(fn)
+				if bad {
+					r.Bad(rule, cons, p.InstrPos(rt), "the broker's own listener list is returned from the critical section: the caller walks it with no lock held while RemoveListener (or a re-registration) shifts its entries in place — a listener that is still registered is skipped and the last one is called twice, so one event is announced to some listeners never and to others twice")
+				} else {
+					r.Ok(rule, cons, p.InstrPos(rt), "the slice returned is not a guarded field itself")
+				}
+			}
+		})
+	}
+	r.Count(rule+": slice-returning returns examined", n)
 }
